@@ -41,6 +41,10 @@ type Cfg struct {
 	AllowIdpInit                                     bool
 	CustomReqID, CustomAud                           *bool
 	MaxIssueDelay, MaxClockSkew                      int64 // nanoseconds
+	// OtherRoleCerts: signing certificates published by roles of the IdP's entity other than
+	// IDPSSODescriptor (RoleDescriptor, SPSSODescriptor, AttributeAuthorityDescriptor, ...). They are
+	// not trust anchors for SSO responses, so they are NOT part of the abstract configuration.
+	OtherRoleCerts []int `json:",omitempty"`
 }
 
 func defaultCfg() Cfg {
@@ -122,6 +126,18 @@ func (c Cfg) SP() *saml.ServiceProvider {
 		desc.KeyDescriptors = append(desc.KeyDescriptors, kd)
 	}
 	sp.IDPMetadata.IDPSSODescriptors = []saml.IDPSSODescriptor{desc}
+	for i, x := range c.OtherRoleCerts {
+		rd := saml.RoleDescriptor{ProtocolSupportEnumeration: "urn:oasis:names:tc:SAML:2.0:protocol",
+			KeyDescriptors: []saml.KeyDescriptor{{Use: "signing", KeyInfo: saml.KeyInfo{X509Data: saml.X509Data{X509Certificates: []saml.X509Certificate{{Data: certB64(x)}}}}}}}
+		switch i % 3 {
+		case 0:
+			sp.IDPMetadata.RoleDescriptors = append(sp.IDPMetadata.RoleDescriptors, rd)
+		case 1:
+			sp.IDPMetadata.SPSSODescriptors = append(sp.IDPMetadata.SPSSODescriptors, saml.SPSSODescriptor{SSODescriptor: saml.SSODescriptor{RoleDescriptor: rd}})
+		case 2:
+			sp.IDPMetadata.AttributeAuthorityDescriptors = append(sp.IDPMetadata.AttributeAuthorityDescriptors, saml.AttributeAuthorityDescriptor{RoleDescriptor: rd})
+		}
+	}
 	switch c.Trust {
 	case tPinned:
 		s := certB64(c.C)
